@@ -292,9 +292,45 @@ def r17_4(ctx):
     return r
 
 
+def r17_6(ctx):
+    r = Rule("R17.6", "the set of inferred runtime types only grows: it is inserted into / extended, and emptied only by the `pop` that emits a one-element set",
+             "a `retain` / `remove` / `clear` on the set after inference drops a constructor the type does admit (`boolean | null` -> Boolean), so Vue's validation rejects a legal value")
+    from ..cfg import calls, callee_name
+    from .influence import flow_of
+    GROW = re.compile(r"(IndexSet::<T, S>::(insert|insert_full|reserve|with_capacity)|Extend<T>>::extend|IndexSet::<T, S>::extend)$")
+    n = 0
+    for mb in ctx.facts.mir:
+        if mb["crate"] != VISITOR_CRATE or mb.get("mac"):
+            continue
+        g = None
+        for i, t in calls(mb):
+            for ty in t.get("arg_tys", []):
+                if ty.startswith("&mut ") and "IndexSet<core::option::Option<swc_atoms::Atom>" in ty:
+                    name = callee_name(t)
+                    n += 1
+                    r.saw(mb["path"])
+                    if GROW.search(name):
+                        continue
+                    key = "%s: %s on the runtime-type set" % (C.root_name(mb) if hasattr(C, "root_name") else (mb.get("parent") or mb["path"]), name.split("::")[-1])
+                    if name.endswith("IndexSet::<T, S>::pop"):
+                        g = g or C.cfg_of(ctx, mb)
+                        fl = flow_of(ctx, mb)
+                        guarded = False
+                        for (a, s_) in g.transitive_control_branches(i):
+                            tt = mb["blocks"][a].get("term") or {}
+                            if tt.get("k") == "switch" and any(d[0] == "call" and d[1].endswith("IndexSet::<T, S>::len") for d in fl.op_deps(tt["discr"])):
+                                guarded = True
+                        r.ob(key, guarded, C.mloc(mb, t), "emission of a one-element set (under a test of its length)" if guarded else
+                             "`pop` on the type set that is not under a test of its length")
+                    else:
+                        r.ob(key, False, C.mloc(mb, t), "`%s` removes inferred types from the set" % name.split("::")[-1])
+    r.ob("mutating calls on the runtime-type set examined", n > 0, "-", "%d call(s); all but the listed ones insert / extend" % n)
+    return r
+
+
 def rules(ctx):
     from . import c16
-    return [__import__('vjsx.rules.c10', fromlist=['x']).field_ratchet('inferred runtime types must not depend on what was resolved before'), c16.r16_9, r17_1, r17_2, r17_3, r17_4, r17_5, c16.r16_2]
+    return [__import__('vjsx.rules.c10', fromlist=['x']).field_ratchet('inferred runtime types must not depend on what was resolved before'), c16.r16_9, r17_1, r17_2, r17_3, r17_4, r17_5, r17_6, c16.r16_2]
 
 
 EXPLANATION = (
@@ -303,6 +339,7 @@ EXPLANATION = (
     "the table in the property statement; recursive arms must extend the accumulator with the recursive result (NonNullable filtering None, "
     "Extract using the second argument). R17.2: the name table sits in the else-branch of both the alias and the interface lookup. R17.3: "
     "insertion-ordered accumulators. R16.2 (shared): registries keyed by (name, scope)."
+    ' R17.6: the runtime-type set only grows (insert / extend); the single `pop` is the emission of a one-element set under a length test.'
 )
 ASSUMPTIONS = ["Vue's runtime validator semantics for the listed constructors", "inhabitants of TS types are not enumerated"]
 TRUSTED = ["rustc nightly HIR/MIR"]
